@@ -465,6 +465,19 @@ class Check:
         self.violations.append((path, found))
         return path
 
+    def translator_failed(self, msg):
+        """A (G) translator no longer recognises the shape of the source it reads: the generated facts can not be renewed, so
+        the theorems resting on them no longer speak about this code (reported, no failing input by itself).  The check goes on
+        with the facts generated last, so that the correspondence run can still find a concrete failing input."""
+        name = "%s-translator-seed%d-%d.txt" % (self.prop, self.seed, len(self.violations))
+        path = os.path.join(VERIF, "replays", name)
+        with open(path, "w") as f:
+            f.write("# property %s — a translator of the generated facts failed\n# %s\n" % (self.prop, msg.replace("\n", "\n# ")))
+            f.write("# verdict: no-failing-input-found — the constants / tables the theorems depend on could not be re-read from the changed source;\n"
+                    "# the correspondence run continues with the facts generated last (see the other replay files of this run, if any)\n")
+        self.violations.append((path, False))
+        self.notes.append("translator failure: " + msg[:300])
+
     def machinery_error(self, msg):
         sys.stderr.write("MACHINERY-ERROR %s: %s\n" % (self.prop, msg))
         self.notes.append("machinery error: " + msg[:500])
